@@ -114,6 +114,8 @@ class Joiner:
         if old not in self.conflict:
             ol, oh = A.bounds(old)
             tl0, th0 = ty_range(w, sg) if plain else (None, None)
+            if th0 is not None and self.counter_leaf(w, sg, plain):
+                th0 = COUNTER_MAX
             lo_ok = ol is None or (tl0 is not None and ol <= tl0) or B.prove_ge0(rb - ol)
             hi_ok = oh is None or (th0 is not None and oh >= th0) or B.prove_ge0(Lin.const(oh) - rb)
             if lo_ok and hi_ok:
@@ -124,6 +126,9 @@ class Joiner:
                 self.conflict.add(old)
         return self.gen(Lin.sym(old), rb, w, sg, nonneg, old, plain)
 
+    def counter_leaf(self, w, sg, plain):
+        return plain and w == 64 and not sg and isinstance(self.key, tuple) and bool(self.key) and self.key[0] == "inv"
+
     def gen(self, la, lb, w, sg, nonneg, old, plain):
         """fresh symbol covering la (in A) and lb (in B)"""
         A, B = self.A, self.B
@@ -131,6 +136,10 @@ class Joiner:
         bb = self.bounds_of(B, lb)
         lo, hi = _hull(ab, bb)
         tlo, thi = ty_range(w, sg) if plain else (None, None)
+        if self.counter_leaf(w, sg, plain):
+            # A3: a 64-bit unsigned leaf of a stateful object only ever grows by a bounded amount per method call (checked on the
+            # inferred invariant: engine.Analysis.growth, rule COUNTER) and an object sees fewer than 2^40 calls: it stays below 2^62
+            thi = COUNTER_MAX
         if self.widen and old is not None:
             ol, oh = A.bounds(old)
             if lo is None or (ol is not None and lo < ol):
@@ -610,3 +619,4 @@ def join_into(ip, inv, arr, mark, key, widen=False, descends=True, roots=None, t
 
 
 DEBUG = False
+COUNTER_MAX = 1 << 62
